@@ -153,6 +153,8 @@ def eval_run(ctx, dev, kw, st, kind, nsteps, with_model=True):
                     fail("retry-sequence", f"step {i}: attempt {j} refused={refused} but it is{' not' if j == len(att)-1 else ''} the last attempt", step=i, attempt=j)
                     break
                 exp = exp * opts.adaptive_time_step_multiplier
+            if att and dt != att[-1][0]:
+                fail("reported-dt-not-used", f"step {i}: the step reports dt={dt} but the accepted attempt used dt={att[-1][0]}", step=i, reported=dt, used=att[-1][0])
             if len(att) > st["max_solve_retries"] + 2:
                 fail("retries-exceeded", f"step {i}: {len(att)} attempts with max_solve_retries={st['max_solve_retries']}", step=i)
             # documented rule after the warm-up window
